@@ -234,7 +234,9 @@ def _run_structural(ctx):
     from .shared import rule_name_selection, rule_flag_default
     rule_flag_default(ctx, r4, "gwf.plugins.status:status", "--endpoints", "targets that are not endpoints would be hidden although --endpoints was not given")
     rule_flag_default(ctx, r2, "gwf.plugins.run:run", "--dry-run", "`gwf run` would only ever preview")
-    from .shared import rule_targets_argument, rule_calls_bind
+    from .shared import rule_targets_argument, rule_calls_bind, rule_option_declaration
+    rule_option_declaration(ctx, r4, "gwf.plugins.status:status", "--status", {"multiple": (True, False)},
+                            "`-s A -s B` must show the union of both states; without multiple=True only the last -s counts and the body iterates the characters of one name")
     rule_calls_bind(ctx, r4, ("gwf.plugins.status", "gwf.plugins.run", "gwf.scheduling", "gwf.filtering"))
     rule_targets_argument(ctx, r4, "gwf.plugins.status:status", "`gwf status [NAMES]`")
     rule_targets_argument(ctx, r2, "gwf.plugins.run:run", "`gwf run [NAMES]`")
